@@ -2,6 +2,7 @@
 from checks.common import Ctx
 from sa.report import Check
 from sa.rules import backend as B
+from sa.rules import window_rules as WN
 from sa.rules import cpp_rules as C
 from sa.rules import pipeline as P
 from sa.rules import ranges as RG
@@ -38,6 +39,7 @@ def main(tier):
     chk.run("R-NSPARSE", B.nsparse, r, floor=1)
     chk.run("R-SLOTAGREE", B.slotagree, r, floor=20)
     chk.run("R-HEADERGUARD", B.headerguard, r, floor=1)
+    chk.run("R-PACKFORWARD", WN.packforward, cx.cpp, floor=3)
     chk.run("R-INTRANGE", RG.intrange, r, parts=('backend',), floor=4)
     chk.run("R-BOUNDARY", RG.boundary, r, only_wider=True, floor=130)
     return chk.finish()
